@@ -11,11 +11,20 @@ open C14
 
 /-! ## 1. the relations -/
 
-/-- a number as a Go program can hold it (`Num.Good`), the floats `±2^63` excluded (the model mirrors Go's
-    `int(float64(2^63))` on amd64, see `C14`; `-2^63` is excluded too so that the set is closed under negation) -/
+/-- a finite float has a significand of at most 53 bits (true of every Go `float64`, a fortiori `float32`) -/
+def F64Small : F64 → Prop
+  | .fin _ m _ => m < 2 ^ 53
+  | _ => True
+
+/-- a float as a Go program can hold it whose conversion to decimal128 is exact (`F64.Good`), `±2^63` excluded (the
+    model mirrors Go's `int(float64(2^63))` on amd64, see `C14`; `-2^63` is excluded too so that the set is closed
+    under negation) -/
+def FOK (f : F64) : Prop := f.Good ∧ f ≠ .fin true 1 63 ∧ F64Small f
+
+/-- a number as a Go program can hold it (`Num.Good`) -/
 def NumOK : Num → Prop
-  | .f64 f => f.Good ∧ f ≠ .fin true 1 63
-  | .f32 f => f.Good ∧ f ≠ .fin true 1 63
+  | .f64 f => FOK f
+  | .f32 f => FOK f
   | .jnum _ => True
   | .dec d => d.Bounded
   | .int k v => k.InRange v
